@@ -42,6 +42,12 @@ def run(ctx) -> None:
     ctx.reuse("C09.max-volume", c03.step_guard_validator)
     ctx.reuse("C09.max-volume", c03.step_guard_wiring)
     ctx.reuse("C09.multi-disp", c06.multi_disp)
+    # the tip-mask field: numbers 1-8 map to the Tecan mask values and nothing else is accepted
+    from . import c10
+
+    ctx.reuse("C09.tip-mask", c10.int_map)
+    ctx.reuse("C09.tip-mask", c10.aggregate_records)
+    ctx.reuse("C09.tip-mask", c10.any_rules)
     ctx.guard("C09.diti-switch", diti_switch)
     ctx.guard("C09.modes", modes)
 
